@@ -751,6 +751,9 @@ func (m *Machine) opReplay(t *rapid.T) bool {
 	if len(used) == 0 {
 		return false
 	}
+	if pend := w.M.ProofsIn(world.Pending); len(pend) > 0 && rapid.Bool().Draw(t, "replay_prefer_pending") {
+		used = pend
+	}
 	victim := used[rapid.IntRange(0, len(used)-1).Draw(t, "replay_victim")]
 	p := victim.P
 	shape := rapid.SampledFrom([]string{"alone", "with_fresh", "twice_identical", "twice_witness", "twice_dleq", "changed_witness", "changed_dleq", "changed_amount", "changed_C"}).Draw(t, "replay_shape")
@@ -1032,6 +1035,10 @@ func (m *Machine) opLockedMint(t *rapid.T) bool {
 	q := m.pickMintQuote(t, func(q *world.MMintQuote) bool { return q.LockPriv != nil })
 	if q == nil {
 		return false
+	}
+	if q.Payments() == 0 && rapid.IntRange(0, 3).Draw(t, "locked_pay_first") > 0 {
+		w.PayInvoice(q)
+		m.logf("pay invoice of locked mint quote %d", q.Idx)
 	}
 	outs := w.MakeOutputs(world.Split(q.Amount), w.ActiveID)
 	msgs := world.Msgs(outs)
